@@ -316,6 +316,22 @@ def field_corruption_sources():
     return out
 
 
+def bad_superclass_sources():
+    """class K : <not a class>: with and without uses of super in the body (a class whose body mentions super
+    receives its superclass in a box)."""
+    out = []
+    values = ["5", "nil", "[1]", "\"s\"", "(|| 1)", "Obj()", "true", "(1, 2)", "{}", "print", "chan(1)"]
+    bodies = {"empty": "", "super-call": "m() { return super.m(); }", "super-init": "init() { super.init(); }",
+              "super-get": "m() { return super.m; }", "super-in-closure": "m() { return || super.m(); }"}
+    for vi, v in enumerate(values):
+        for bn, b in sorted(bodies.items()):
+            out.append(("superclass-%d-%s" % (vi, bn),
+                        "class Obj {}\nlet sup = %s;\ntry { class K : sup { %s }\nprint(K); } catch e { print(e.message); }\nprint(\"end\");" % (v, b)))
+            out.append(("superclass-%d-%s-in-fn" % (vi, bn),
+                        "class Obj {}\nfn mk(sup) { class K : sup { %s }\nreturn K; }\ntry { print(mk(%s)); } catch e { print(e.message); }\nprint(\"end\");" % (b, v)))
+    return out
+
+
 def blocked_in_callback_sources():
     """A receive that can never complete, inside a callback run by a native: the deadlock has to be reported the same
     way as anywhere else."""
@@ -357,7 +373,7 @@ def recursion_sources():
 
 def extra(tier, ctx):
     out = []
-    for name, src in sorted(SHAPES.items()) + recursion_sources() + field_corruption_sources() + blocked_in_callback_sources():
+    for name, src in sorted(SHAPES.items()) + recursion_sources() + field_corruption_sources() + blocked_in_callback_sources() + bad_superclass_sources():
         o = run_source(src, ctx, "shape:" + name, "shape " + name)
         o.nontrivial = True
         o.labels = ["shape"]
